@@ -11,6 +11,7 @@ from fractions import Fraction
 import proj
 import qmirror
 import render
+from tracev import reset_event, validate_trace
 from vlib import ToolError, close, q_to_fraction, tlc, tlc_must_pass, run_harness_stable_day, short_hash
 
 LEVEL = "model_checking"
@@ -74,7 +75,7 @@ def run(rep):
             ms = []
             seen = set()
             for (var, toks, exp, sp) in variants:
-                if exp["k"] == "any":
+                if exp["k"] == "unspec":
                     continue
                 text = render.render_arith(toks, cfg["dec"], cfg["tho"], sp, salt=str(gi))
                 if var == "assign":
@@ -204,9 +205,7 @@ def random_trace(rep, n):
             status, slots = True, [{"k": st.get("outcome", "panic")}]
         else:
             status, slots = ss
-        events.append({"ev": "reset", "cfg": {"dec": c["cfg"]["dec"], "tho": c["cfg"]["tho"], "num": c["cfg"]["num"],
-                                               "pct": c["cfg"]["pct"], "mon": c["cfg"]["mon"],
-                                               "tz": {"name": "UTC", "off": 0}}, "today": o.get("day0", 0)})
+        events.append(reset_event(c["cfg"], o.get("day0", 0)))
         index.append(None)
         events.append({"ev": "execute", "lang": "en", "lines": [{"form": "arith", "toks": c["_toks"]}],
                        "status": status, "obs": [proj.trace_slot(s) for s in slots]})
@@ -225,21 +224,3 @@ def random_trace(rep, n):
                        "class": feat_class(kind, feat)})
     if cases:
         rep.sample({"random_trace_event": events[1], "text": cases[0]["steps"][0]["text"]})
-
-
-def validate_trace(rep, events, tag):
-    import json
-    import os
-    from vlib import OUT
-    d = os.path.join(OUT, "run")
-    os.makedirs(d, exist_ok=True)
-    path = os.path.join(d, tag + ".trace.ndjson")
-    with open(path, "w", encoding="utf-8") as f:
-        for e in events:
-            f.write(json.dumps(e, ensure_ascii=False) + "\n")
-    r = tlc("Trace", "Trace", workers=1, timeout=1800, env={"TRACE": path}, heap="4g")
-    rep.add_tlc("Trace(%s)" % tag, r)
-    if r.violated or r.error:
-        raise ToolError("trace %s not consumed by Trace.tla: %s %s" % (path, r.violated or r.error, r.info))
-    rep.trace_events += len(events)
-    return r.bad
